@@ -433,7 +433,7 @@ func init() {
 		p := p
 		_ = p
 	}
-	register("C01", &check{run: c01Run, replay: attReplay("C01"), quick: 240 * time.Second, thor: 1500 * time.Second})
+	register("C01", &check{run: c01Run, replay: attReplay("C01"), quick: 360 * time.Second, thor: 1500 * time.Second})
 }
 
 var _ = etree.NewDocument
